@@ -355,9 +355,23 @@ def signature(case, verdict, failed):
     return f"{case['style']}:{tiled}:{kinds}{':' + err if err else ''}"
 
 
+def _tree_shrinks(t):
+    if not isinstance(t, list):
+        return
+    for i in range(len(t)):
+        yield t[:i] + t[i + 1:]
+    for i, e in enumerate(t):
+        if isinstance(e, list) and len(e) == 2:
+            c, sub = e
+            if isinstance(sub, list):
+                for s2 in _tree_shrinks(sub):
+                    yield t[:i] + [[c, s2]] + t[i + 1:]
+            elif sub not in (0, 1):
+                yield t[:i] + [[c, 1]] + t[i + 1:]
+
+
 def shrink_candidates(case):
     # smaller operand trees first, then drop the tiling
-    from check import _tree_shrinks  # type: ignore
     for i, op in enumerate(case["ops"]):
         for t2 in _tree_shrinks(op["t"]):
             c = dict(case)
